@@ -13,6 +13,7 @@ skipped).
 from __future__ import annotations
 
 import os
+import re
 from concurrent.futures import ProcessPoolExecutor
 
 from .core import AnalysisError, Program
@@ -23,29 +24,48 @@ _MOD = None
 _PROP = None
 _BASE: set[str] = set()
 _MUTS: list = []
+_NEUT_LOCAL: list = []
 
 
-def _apply(prog: Program, edits) -> Program | None:
-    srcs = dict(prog.sources)
+def apply_edits(sources: dict, edits) -> tuple[dict | None, str]:
+    """sources with the edits (file, old, new[, replace_all[, line of the hunk]]) applied; (None, reason) when one does not
+    apply.  A hunk whose text occurs more than once is placed at the occurrence nearest to its line number."""
+    srcs = dict(sources)
     for e in edits:
         path, old, new = e[0], e[1], e[2]
         many = len(e) > 3 and e[3]
-        if path not in srcs or (srcs[path].count(old) != 1 and not (many and srcs[path].count(old) > 1)):
-            return None
-        srcs[path] = srcs[path].replace(old, new)
-    return Program(srcs)
+        hint = e[4] if len(e) > 4 else None
+        if path not in srcs:
+            return None, f'{path} not in the sources'
+        n = srcs[path].count(old)
+        if n == 1 or (many and n > 1):
+            srcs[path] = srcs[path].replace(old, new)
+        elif n > 1 and hint is not None:
+            text = srcs[path]
+            starts = [m.start() for m in re.finditer(re.escape(old), text)]
+            best = min(starts, key=lambda k: abs(text.count('\n', 0, k) + 1 - hint))
+            srcs[path] = text[:best] + new + text[best + len(old):]
+        else:
+            return None, f'hunk of {path} occurs {n} times'
+    return srcs, ''
+
+
+def _apply(prog: Program, edits) -> Program | None:
+    srcs, _ = apply_edits(prog.sources, edits)
+    return Program(srcs) if srcs is not None else None
 
 
 def patch_edits(patch_text: str):
-    """(file, old text, new text) per hunk of a unified diff (context lines included on both sides)"""
+    """(file, old text, new text, False, first line of the hunk) per hunk of a unified diff (context lines included on both sides)"""
     edits = []
     path = None
     old: list[str] = []
     new: list[str] = []
+    start = [None]
 
     def flush():
         if path and (old or new):
-            edits.append((path, ''.join(old), ''.join(new)))
+            edits.append((path, ''.join(old), ''.join(new), False, start[0]))
 
     for line in patch_text.splitlines(keepends=True):
         if line.startswith('+++ '):
@@ -57,6 +77,8 @@ def patch_edits(patch_text: str):
             continue
         elif line.startswith('@@'):
             flush()
+            m_ = re.match(r'@@ -(\d+)', line)
+            start[0] = int(m_.group(1)) if m_ else None
             old, new = [], []
         elif path is None:
             continue
@@ -92,6 +114,36 @@ def seeded_mutants(prop: str) -> list[dict]:
     return out
 
 
+def refactoring_neutrals(prop: str) -> list[dict]:
+    """the behaviour-preserving refactorings of /verif/refactorings that touch a file this property's refactorings or
+    confirmed changes touch, as in-memory edits (written by sub-agents, verified against the baseline; the rules must stay silent)"""
+    import glob
+    import json
+    import re
+
+    here = os.path.dirname(os.path.dirname(os.path.abspath(__file__)))
+
+    def files_of(patch):
+        return set(re.findall(r'^\+\+\+ b/(\S+)', patch, re.M))
+
+    mine: set[str] = set()
+    for d in glob.glob(os.path.join(here, 'refactorings', f'{prop}_*')) + glob.glob(os.path.join(here, 'seeded', f'{prop}_*')):
+        try:
+            mine |= files_of(open(os.path.join(d, 'patch.diff'), encoding='utf-8').read())
+        except OSError:
+            pass
+    out = []
+    for d in sorted(glob.glob(os.path.join(here, 'refactorings', '*_*'))):
+        try:
+            patch = open(os.path.join(d, 'patch.diff'), encoding='utf-8').read()
+            meta = json.load(open(os.path.join(d, 'meta.json'), encoding='utf-8'))
+        except OSError:
+            continue
+        if os.path.basename(d).startswith(prop) or files_of(patch) & mine:
+            out.append({'name': f'refactorings/{os.path.basename(d)}: {meta.get("title", "")[:90]}', 'edits': patch_edits(patch)})
+    return out
+
+
 def _edits(m: dict):
     if 'edits' in m:
         return [tuple(e) for e in m['edits']]
@@ -101,7 +153,7 @@ def _edits(m: dict):
 def _run_one(i: int):
     from .variants import TRANSFORMS, variant
 
-    local = _MUTS + getattr(_MOD, 'NEUTRAL', [])
+    local = _MUTS + _NEUT_LOCAL
     if i >= len(local):
         gname = list(TRANSFORMS)[i - len(local)]
         m = {'name': f'whole package: {gname} ({(TRANSFORMS[gname]().__doc__ or "").strip()})'}
@@ -142,12 +194,13 @@ def _run_one(i: int):
 
 
 def run_selftest(prog: Program, prop: str, mod) -> dict:
-    global _PROG, _MOD, _PROP, _BASE, _MUTS
+    global _PROG, _MOD, _PROP, _BASE, _MUTS, _NEUT_LOCAL
     from .variants import TRANSFORMS
 
     muts = list(getattr(mod, 'MUTANTS', [])) + seeded_mutants(prop)
     _MUTS = muts
-    neut = list(getattr(mod, 'NEUTRAL', [])) + [{'name': g} for g in TRANSFORMS]
+    _NEUT_LOCAL = list(getattr(mod, 'NEUTRAL', [])) + refactoring_neutrals(prop)
+    neut = _NEUT_LOCAL + [{'name': g} for g in TRANSFORMS]
     base = Ctx(prog, prop, 'thorough')
     mod.run(base)
     _PROG, _MOD, _PROP = prog, mod, prop
